@@ -50,6 +50,22 @@ type FSM struct {
 	restoreMu sync.Mutex
 }
 
+// updateSessionExpiration takes over the session expiration from the
+// configuration of ircServer, e.g. after restoring its state from a snapshot
+// (the Config message which set it might have been compacted).
+func (fsm *FSM) updateSessionExpiration() {
+	exp := configuredSessionExpiration()
+	fsm.sessionExpirationMu.Lock()
+	defer fsm.sessionExpirationMu.Unlock()
+	fsm.sessionExpirationDur = exp
+}
+
+func configuredSessionExpiration() time.Duration {
+	ircServer.ConfigMu.RLock()
+	defer ircServer.ConfigMu.RUnlock()
+	return time.Duration(ircServer.Config.SessionExpiration)
+}
+
 func (fsm *FSM) sessionExpiration() time.Duration {
 	fsm.sessionExpirationMu.RLock()
 	defer fsm.sessionExpirationMu.RUnlock()
@@ -472,6 +488,7 @@ func (fsm *FSM) decodeProtobuf(b *bufio.Reader) error {
 			}
 			log.Printf("storing RobustState as index %d\n", lastIncludedIndex)
 			fsm.lastSnapshotState[lastIncludedIndex] = state
+			fsm.updateSessionExpiration()
 			continue
 		}
 
@@ -520,6 +537,7 @@ func (fsm *FSM) decodeJson(b *bufio.Reader) error {
 			}
 			log.Printf("storing RobustState as index %d\n", lastIncludedIndex)
 			fsm.lastSnapshotState[lastIncludedIndex] = state
+			fsm.updateSessionExpiration()
 			continue
 		}
 
